@@ -182,54 +182,106 @@ def asEntry : Rep → Option (Rep × Rep)
     else none
   | _ => none
 
-/-! ## `Hash`: the structural part (what is fed to the hash function), as a `V`-shaped key.
-Order-independent combinations (xor over members, frozen map/set hashes) are canonical sets. -/
+/-! ## `Hash`
 
-def hkTag (t : String) (v : V) : V := .tup [(t, v)]
+frozen identifies the elements of a `Set` by their full hash: `Set.Equal` is "same count and same
+XOR of the element hashes" (tree.Equal: `FullHash() && !H0.isZero()`), the structural comparison is
+only consulted when that XOR is zero.  So what the `Hash` methods feed to the hash function decides
+equality of every set nested in a set.  Hash values are modelled symbolically:
 
-/-- `string(s.s)`: a hole (negative rune) becomes U+FFFD like every invalid rune -/
-def runeKey (c : Int) : V := .num (if c < 0 || c > 0x10FFFF then 0xFFFD else c)
+* an *atom* is one application of a mixing function of github.com/arr-ai/hash (memhash/aeshash of a
+  payload under a seed) — idealised as injective in (function, payload, seed): no accidental 64-bit
+  collisions;
+* a hash value (`HV`) is the strictly sorted list of the atoms occurring an odd number of times, so
+  Go's `^` is the symmetric difference `hxor`.
+
+`hashG true` transliterates the repaired `Hash` methods, `hashG false` the ones before the repairs
+(plain XORs of the parts' hashes; `String`/`Bytes` = hash.String(content)). frozen hashes an element
+under the seeds 0 and 1; the model follows seed 0 (= `[]`) only. -/
+
+abbrev HV := List V
+
+def hxor (a b : HV) : HV := FinSet.symdiff a b
+def hatom (tag : String) (payload : V) (seed : HV) : HV := [.tup [(tag, payload), ("seed", .set seed)]]
+def numsV (l : List Int) : V := .set (l.map (fun x => .num x))
+def nameV (n : String) : V := numsV (n.toList.map (fun c => (c.toNat : Int)))
+
+/-- `finishHash(h, seed)` (repaired) vs. `pre ^ h` (before) -/
+def hfin (rep : Bool) (pre h seed : HV) : HV := if rep then hatom "fin" (.set h) seed else hxor pre h
+
+def strMemXor (off : Int) : List Int → HV
+  | [] => []
+  | c :: r => if c < 0 then strMemXor (off + 1) r
+              else hxor (hatom "i32" (.num c) (hatom "int" (.num off) [])) (strMemXor (off + 1) r)
+def bytesMemXor (off : Int) : List Int → HV
+  | [] => []
+  | b :: r => hxor (hatom "u8" (.num b) (hatom "int" (.num off) [])) (bytesMemXor (off + 1) r)
 
 mutual
-def hashKey : Rep → V
-  | .num n => .num n
-  | .gtuple as => hkTag "gtuple" (V.mkSet (hkAttrs as))          -- frozen.Map hash: order independent
-  | .charT ix ch => hkTag "charT" (.set [.num ix, .num ch])
-  | .byteT ix b => hkTag "byteT" (.set [.num ix, .num b])
-  | .itemT ix x => hkTag "itemT" (.set [.num ix, hashKey x])
-  | .entryT k v => hkTag "entryT" (.set [hashKey k, hashKey v])
-  | .empty => hkTag "xor0" (.set [])                              -- seed
-  | .true_ => hkTag "xor0" (.set [hkTag "gtuple" (.set [])])      -- seed ^ hash(EmptyTuple, 0)
-  | .generic xs => hkTag "xor0" (V.mkSet (hkList xs))             -- seed ^ xor of member.Hash(0)
-  | .str s _ _ => hkTag "string" (.set (s.map runeKey))           -- hash.String(string(s.s)): no offset
-  | .bytes b _ => hkTag "bytes" (.set (b.map (fun x => .num x)))
-  | .array vs off _ => hkTag "xorS" (V.mkSet (hkOpts off vs))     -- xor of itemTuple.Hash(seed)
-  | .dict m => hkTag "xorS" (V.mkSet (hkDict m))                  -- xor of entryTuple.Hash(seed)
-  | .relation names rows => hkTag "xorR" (V.mkSet (hkRows names rows))   -- 0 ^ xor of GenericTuple.Hash(seed)
-  | .union bs => hkTag "xor0" (V.mkSet (hkBuckets bs))            -- like GenericSet, over all members
-def hkAttrs : List (String × Rep) → List V
+/-- `v.Hash(seed)` -/
+def hashG (rep : Bool) : Rep → HV → HV
+  | .num n, s => hatom "f64" (.num n) s
+  -- frozen Map.Hash: C(seed) ^ XOR of hash.Any(value, hash.Any(key, seed)); repaired: finished
+  | .gtuple as, s => hfin rep [] (hxor (hatom "mapC" (.set []) s) (xorAttrs rep as s)) s
+  | .charT ix ch, s => hatom "i32" (.num ch) (hatom "int" (.num ix) s)
+  | .byteT ix b, s => hatom "u8" (.num b) (hatom "int" (.num ix) s)
+  | .itemT ix x, s => hashG rep x (hatom "int" (.num ix) s)
+  | .entryT k v, s => hashG rep v (hashG rep k s)
+  | .empty, s => hfin rep s [] s
+  | .true_, s => hfin rep s (hfin rep [] (hatom "mapC" (.set []) []) []) s
+  | .generic xs, s => hfin rep s (xorList rep xs) s
+  | .str r off _, s =>
+    if rep then hatom "runes" (numsV r) (hatom "int" (.num off) s)
+    else hatom "str" (numsV (r.map (fun c => if c < 0 then 0xFFFD else c))) s
+  | .bytes b off, s =>
+    if rep then hatom "str" (numsV b) (hatom "int" (.num off) s)
+    else hatom "str" (numsV b) s
+  | .array vs off _, s => hfin rep s (xorOpts rep off vs s) s
+  | .dict m, s => hfin rep s (xorDict rep m s) s
+  | .relation names rows, s => hfin rep [] (xorRows rep names rows s) s
+  | .union bs, s => hfin rep s (xorBuckets rep bs) s
+def xorAttrs (rep : Bool) : List (String × Rep) → HV → HV
+  | [], _ => []
+  | (n, v) :: r, s => hxor (hashG rep v (hatom "str" (nameV n) s)) (xorAttrs rep r s)
+/-- XOR of `member.Hash(0)` -/
+def xorList (rep : Bool) : List Rep → HV
   | [] => []
-  | (n, v) :: r => .tup [(n, hashKey v)] :: hkAttrs r
-def hkList : List Rep → List V
+  | x :: r => hxor (hashG rep x []) (xorList rep r)
+def xorOpts (rep : Bool) (off : Int) : List (Option Rep) → HV → HV
+  | [], _ => []
+  | some x :: r, s => hxor (hashG rep x (hatom "int" (.num off) s)) (xorOpts rep (off + 1) r s)
+  | none :: r, s => xorOpts rep (off + 1) r s
+def xorDict (rep : Bool) : List (Rep × List Rep) → HV → HV
+  | [], _ => []
+  | (k, vs) :: r, s => hxor (xorVals rep vs (hashG rep k s)) (xorDict rep r s)
+def xorVals (rep : Bool) : List Rep → HV → HV
+  | [], _ => []
+  | v :: r, ks => hxor (hashG rep v ks) (xorVals rep r ks)
+def xorRows (rep : Bool) (names : List String) : List (List Rep) → HV → HV
+  | [], _ => []
+  | row :: r, s =>
+    hxor (hfin rep [] (hxor (hatom "mapC" (.set []) s) (xorRow rep names row s)) s) (xorRows rep names r s)
+def xorRow (rep : Bool) : List String → List Rep → HV → HV
+  | n :: ns, v :: vs, s => hxor (hashG rep v (hatom "str" (nameV n) s)) (xorRow rep ns vs s)
+  | _, _, _ => []
+/-- a `UnionSet` hashes all members of all buckets under seed 0 -/
+def xorBuckets (rep : Bool) : List (String × Rep) → HV
   | [] => []
-  | x :: r => hashKey x :: hkList r
-def hkOpts (off : Int) : List (Option Rep) → List V
-  | [] => []
-  | some x :: r => hkTag "itemT" (.set [.num off, hashKey x]) :: hkOpts (off + 1) r
-  | none :: r => hkOpts (off + 1) r
-def hkDict : List (Rep × List Rep) → List V
-  | [] => []
-  | (k, vs) :: r => (hkList vs).map (fun v => hkTag "entryT" (.set [hashKey k, v])) ++ hkDict r
-def hkRows (names : List String) : List (List Rep) → List V
-  | [] => []
-  | row :: r => hkTag "gtuple" (V.mkSet ((names.zip (hkList row)).map (fun p => .tup [(p.1, p.2)]))) :: hkRows names r
-def hkBuckets : List (String × Rep) → List V
-  | [] => []
-  | (_, s) :: r =>
-    (match hashKey s with
-     | .tup [(_, .set l)] => l
-     | _ => []) ++ hkBuckets r
+  | (_, sub) :: r => hxor (memXor rep sub) (xorBuckets rep r)
+/-- XOR of `member.Hash(0)` over the enumeration of a (non-union) set -/
+def memXor (rep : Bool) : Rep → HV
+  | .true_ => hfin rep [] (hatom "mapC" (.set []) []) []
+  | .generic xs => xorList rep xs
+  | .str r off _ => strMemXor off r
+  | .bytes b off => bytesMemXor off b
+  | .array vs off _ => xorOpts rep off vs []
+  | .dict m => xorDict rep m []
+  | .relation names rows => xorRows rep names rows []
+  | _ => []
 end
+
+/-- the repaired hash under seed 0 -/
+def hashKey (r : Rep) : HV := hashG true r []
 
 end Rep
 
@@ -346,20 +398,35 @@ def sortNames (l : List String) : List String := sortStrs l
 def rowGet (names : List String) (row : List Rep) (n : String) : Option Rep :=
   lookupAttr n (names.zip row)
 
+/-- frozen `Tree.Equal`: the XOR of the element hashes decides unless it is zero -/
+def frozenEq (h h' : HV) (structural : Bool) : Bool := h == h' && (!h.isEmpty || structural)
+
+/-- `Values.Hash(seed)`: `h = hash.Any(val, h)` over the row in sorted-name order -/
+def rowChain (rep : Bool) (names sorted : List String) (row : List Rep) : HV :=
+  sorted.foldl (fun h n => match rowGet names row n with
+    | some v => hashG rep v h
+    | none => h) []
+
+def rowsXor (rep : Bool) (names : List String) (rows : List (List Rep)) : HV :=
+  rows.foldr (fun row acc => hxor (rowChain rep names (sortNames names) row) acc) []
+
 mutual
-/-- `a.Equal(b)`: structural recursion on the receiver -/
-def equal : Rep → Rep → Bool
+/-- `a.Equal(b)`: structural recursion on the receiver; `rep` selects the repaired `Hash` methods -/
+def equalG (rep : Bool) : Rep → Rep → Bool
   | .num a, b => (match b with | .num b => a == b | _ => false)
   -- GenericTuple.Equal accepts any Tuple
-  | .gtuple as, b => isTuple b && equalAttrsIn as b && (tupleNames b).all (fun n => (as.map (·.1)).contains n)
+  | .gtuple as, b => isTuple b && equalAttrsIn rep as b && (tupleNames b).all (fun n => (as.map (·.1)).contains n)
   | .charT ix ch, b => (match b with | .charT ix' ch' => ix == ix' && ch == ch' | _ => false)
   | .byteT ix x, b => (match b with | .byteT ix' x' => ix == ix' && x == x' | _ => false)
-  | .itemT ix x, b => (match b with | .itemT ix' y => ix == ix' && equal x y | _ => false)
-  | .entryT k v, b => (match b with | .entryT k' v' => equal k k' && equal v v' | _ => false)
+  | .itemT ix x, b => (match b with | .itemT ix' y => ix == ix' && equalG rep x y | _ => false)
+  | .entryT k v, b => (match b with | .entryT k' v' => equalG rep k k' && equalG rep v v' | _ => false)
   | .empty, b => (match b with | .empty => true | _ => false)
   | .true_, b => (match b with | .true_ => true | _ => false)
-  -- GenericSet.Equal: frozen Set.Equal (same count, every member found by hash and Equal)
-  | .generic xs, b => (match b with | .generic ys => xs.length == ys.length && allIn xs ys | _ => false)
+  -- GenericSet.Equal: frozen Set.Equal
+  | .generic xs, b =>
+    (match b with
+     | .generic ys => xs.length == ys.length && frozenEq (xorList rep xs) (xorList rep ys) (allIn rep xs ys)
+     | _ => false)
   | .str s off holes, b =>
     (match b with
      | .str s' off' holes' => off == off' && holes == holes' && s.length == s'.length && s == s'
@@ -367,86 +434,97 @@ def equal : Rep → Rep → Bool
   | .bytes x off, b => (match b with | .bytes x' off' => off == off' && x == x' | _ => false)
   | .array vs off c, b =>
     (match b with
-     | .array vs' off' c' => vs.length == vs'.length && off == off' && c == c' && arrEq vs vs'
+     | .array vs' off' c' => vs.length == vs'.length && off == off' && c == c' && arrEq rep vs vs'
      | _ => false)
   -- Dict.Equal accepts any Set
   | .dict m, b =>
     (match b with
-     | .dict m' => m.length == m'.length && dictAllIn m m'
+     | .dict m' => m.length == m'.length && dictAllIn rep m m'
      | b => isSet b && (count b != 0) && (count (.dict m) == count b) &&
             (members b).all (fun e => match asEntry e with
-              | some (k', v') => dictHasSingle m k' v'
+              | some (k', v') => dictHasSingle rep m k' v'
               | none => false))
   | .relation names rows, b =>
     (match b with
      | .relation names' rows' =>
        names.length == names'.length && sortNames names == sortNames names' &&
-       rows.length == rows'.length && rowsAllIn names rows names' rows'
+       rows.length == rows'.length &&
+       frozenEq (rowsXor rep names rows) (rowsXor rep names' rows') (rowsAllIn rep names rows names' rows')
      | _ => false)
   | .union bs, b =>
     (match b with
-     | .union bs' => bs.length == bs'.length && bucketsAllIn bs bs'
+     | .union bs' => bs.length == bs'.length && bucketsAllIn rep bs bs'
      | _ => false)
 termination_by structural a _ => a
-def equalAttrsIn : List (String × Rep) → Rep → Bool
+def equalAttrsIn (rep : Bool) : List (String × Rep) → Rep → Bool
   | [], _ => true
-  | (n, v) :: r, b => (match tupleGet b n with | some w => equal v w | none => false) && equalAttrsIn r b
+  | (n, v) :: r, b => (match tupleGet b n with | some w => equalG rep v w | none => false) && equalAttrsIn rep r b
 termination_by structural a _ => a
-def allIn : List Rep → List Rep → Bool
+/-- structural part of frozen's set comparison: every member found by hash and `Equal` -/
+def allIn (rep : Bool) : List Rep → List Rep → Bool
   | [], _ => true
-  | x :: r, ys => ys.any (fun y => hashKey x == hashKey y && equal x y) && allIn r ys
+  | x :: r, ys => ys.any (fun y => hashG rep x [] == hashG rep y [] && equalG rep x y) && allIn rep r ys
 termination_by structural a _ => a
-def arrEq : List (Option Rep) → List (Option Rep) → Bool
+def arrEq (rep : Bool) : List (Option Rep) → List (Option Rep) → Bool
   | [], _ => true
-  | some c :: r, some d :: r' => equal c d && arrEq r r'
-  | none :: r, none :: r' => arrEq r r'
+  | some c :: r, some d :: r' => equalG rep c d && arrEq rep r r'
+  | none :: r, none :: r' => arrEq rep r r'
   | _, _ => false
 termination_by structural a _ => a
-/-- every key of the receiver is found in `m'` with an equal value (equalDictValue) -/
-def dictAllIn : List (Rep × List Rep) → List (Rep × List Rep) → Bool
+/-- `equalDict`: every key of the receiver is found in `m'` (hash, then `Equal`) with an equal value
+(`equalDictValue`: two plain values, or two `multipleValues` compared as frozen sets) -/
+def dictAllIn (rep : Bool) : List (Rep × List Rep) → List (Rep × List Rep) → Bool
   | [], _ => true
   | (k, vs) :: r, m' =>
-    m'.any (fun kv' => hashKey k == hashKey kv'.1 && equal k kv'.1 &&
-      (if vs.length ≤ 1 then kv'.2.length ≤ 1 && valuesEq vs kv'.2   -- both plain Values
-       else 2 ≤ kv'.2.length && vs.length == kv'.2.length && allIn vs kv'.2)) -- both multipleValues
-    && dictAllIn r m'
+    m'.any (fun kv' => hashG rep k [] == hashG rep kv'.1 [] && equalG rep k kv'.1 &&
+      (if vs.length ≤ 1 then kv'.2.length ≤ 1 && valuesEq rep vs kv'.2
+       else 2 ≤ kv'.2.length && vs.length == kv'.2.length &&
+            frozenEq (xorList rep vs) (xorList rep kv'.2) (allIn rep vs kv'.2)))
+    && dictAllIn rep r m'
 termination_by structural a _ => a
 /-- `d.m.Get(key)` yields a single value equal to `v'` (argument order of the value comparison
 flipped w.r.t. Go — `value.Equal(dv)` — to keep the recursion structural; see `equal_symm`) -/
-def dictHasSingle : List (Rep × List Rep) → Rep → Rep → Bool
+def dictHasSingle (rep : Bool) : List (Rep × List Rep) → Rep → Rep → Bool
   | [], _, _ => false
   | (k, vs) :: r, k', v' =>
-    if hashKey k == hashKey k' && equal k k' then singleEq vs v' else dictHasSingle r k' v'
+    if hashG rep k [] == hashG rep k' [] && equalG rep k k' then singleEq rep vs v' else dictHasSingle rep r k' v'
 termination_by structural a _ _ => a
-def singleEq : List Rep → Rep → Bool
-  | [dv], v' => equal dv v'
+def singleEq (rep : Bool) : List Rep → Rep → Bool
+  | [dv], v' => equalG rep dv v'
   | _, _ => false
 termination_by structural a _ => a
 /-- `Values.equalValues` -/
-def valuesEq : List Rep → List Rep → Bool
+def valuesEq (rep : Bool) : List Rep → List Rep → Bool
   | [], [] => true
-  | x :: r, y :: r' => equal x y && valuesEq r r'
+  | x :: r, y :: r' => equalG rep x y && valuesEq rep r r'
   | _, _ => false
 termination_by structural a _ => a
-/-- canonicalRelation().set.Equal: every row found among the other relation's rows, columns
-matched by name (Go projects both sides to sorted-name order first) -/
-def rowsAllIn (names : List String) : List (List Rep) → List String → List (List Rep) → Bool
+/-- structural part of `canonicalRelation().set.Equal`: every row found among the other relation's
+rows, columns matched by name (Go projects both sides to sorted-name order first) -/
+def rowsAllIn (rep : Bool) (names : List String) : List (List Rep) → List String → List (List Rep) → Bool
   | [], _, _ => true
   | row :: r, names', rows' =>
-    rows'.any (fun row' => rowEqByName names row names' row') && rowsAllIn names r names' rows'
+    rows'.any (fun row' => rowEqByName rep names row names' row') && rowsAllIn rep names r names' rows'
 termination_by structural a _ _ => a
-def rowEqByName : List String → List Rep → List String → List Rep → Bool
+def rowEqByName (rep : Bool) : List String → List Rep → List String → List Rep → Bool
   | n :: ns, x :: xs, names', row' =>
-    (match rowGet names' row' n with | some y => equal x y | none => false) && rowEqByName ns xs names' row'
+    (match rowGet names' row' n with | some y => equalG rep x y | none => false) && rowEqByName rep ns xs names' row'
   | _, _, _, _ => true
 termination_by structural _ a _ _ => a
-def bucketsAllIn : List (String × Rep) → List (String × Rep) → Bool
+def bucketsAllIn (rep : Bool) : List (String × Rep) → List (String × Rep) → Bool
   | [], _ => true
-  | (k, s) :: r, bs' => (match lookupAttr k bs' with | some s' => equal s s' | none => false) && bucketsAllIn r bs'
+  | (k, s) :: r, bs' =>
+    (match lookupAttr k bs' with | some s' => equalG rep s s' | none => false) && bucketsAllIn rep r bs'
 termination_by structural a _ => a
 end
 
+/-- the repaired `Equal` -/
+abbrev equal := equalG true
+/-- `Equal` with the `Hash` methods as they were before the repairs -/
+abbrev equalOld := equalG false
+
 end Impl
+
 /-! ## constructors and the operators that must re-establish `wf` -/
 namespace Impl
 open Rep
@@ -730,7 +808,7 @@ def relationFinish (ts : List Rep) : Res Rep :=
     if rows.all Option.isSome then
       let rs := rows.filterMap id
       let dedup := (rs.foldl (fun acc r =>
-        if acc.any (fun r' => valuesEq r' r) then acc else r :: acc) []).reverse
+        if acc.any (fun r' => valuesEq true r' r) then acc else r :: acc) []).reverse
       .ok (.relation names dedup)
     else .panic
 
